@@ -391,6 +391,11 @@ func init() {
 	registerRule(&RuleDef{ID: "R-WG", Min: 1, Doc: "every goroutine connect starts (itself or through a start helper) that watches stopCh is counted in handlerShutdown", Run: ruleRWG})
 	add("C14", "R-WG")
 	add("C16", "R-WG")
+	registerRule(&RuleDef{ID: "S-ALLCOLS", Min: 2, Doc: "the notification filters tell a request that omits columns (all columns) apart from one that lists them", Run: ruleSALLCOLS})
+	add("C07", "S-ALLCOLS")
+	add("C01", "S-ALLCOLS")
+	registerRule(&RuleDef{ID: "S-NOEMPTY", Min: 2, Doc: "a table is added to a notification only when a row update survived the filter", Run: ruleSNOEMPTY})
+	add("C07", "S-NOEMPTY")
 	add("C01", "ERR-LOOP")
 	add("C03", "X1", "MAX-ONE")
 	add("C04", "MAX-ONE")
